@@ -72,7 +72,7 @@ class Recorder:
 
 
 def build(D, is_async=False):
-    from tawazi import dag, xn
+    from tawazi import Resource, dag, xn
 
     n = D["n"]
     xs = {}
@@ -89,7 +89,8 @@ def build(D, is_async=False):
                     return ("v", k, tuple(a))
             f.__qualname__ = f.__name__ = f"f{k}"
             return f
-        xs[k] = xn(mk(), setup=D["kind"][k - 1] == "setup")
+        is_setup = D["kind"][k - 1] == "setup"
+        xs[k] = xn(mk(), setup=is_setup, resource=Resource.async_thread if is_setup and D.get("sres") == "async" else Resource.thread)
     params = []
     for p in range(1, D["np"] + 1):
         d = D["defaults"][p - 1]
@@ -199,12 +200,13 @@ class History:
             self._verif.sink = None
         ids = [f"f{k}" for k in range(1, n + 1)]
         ent = self.rec.entered
-        ev = {"op": op, "i": i, "j": 0, "x": 0, "f": 0, "r": -1, "xx": -1, "t": -1, "dep": -1,
+        ev = {"op": op, "i": i, "j": 0, "x": 0, "f": 0, "fc": 0, "r": -1, "xx": -1, "t": -1, "dep": -1, "counts": [0] * n, "nonces2": [0] * n,
               "args": list(args), "out": out,
               "e": mask(int(x[1:]) for x in ent if x in ids),
               "dup": mask(int(x[1:]) for x, c in ent.items() if x in ids and c > 1),
               "used": [-2] * D["np"], "nonces": [0] * n, "retn": [0] * n, "fresh": True,
               "keys": 0, "xkeys": 0, "cached": -1}
+        ev["counts"] = [ent.get(f"f{k}", 0) for k in range(1, n + 1)]
         if any(x not in ids for x in ent) and out == 0:
             ev["out"] = 5
         d = self.inst.get(i)
@@ -273,26 +275,38 @@ class History:
                 kw["target_nodes"] = self.ids(t)
         return kw
 
-    def op_exnew(self, i, x, r=-1, xx=-1, t=-1, dep=-1, f=0):
+    def op_exnew(self, i, x, r=-1, xx=-1, t=-1, dep=-1, f=0, fc=0):
         kw = self.sel_kwargs(r, xx, t, dep)
         if f:
             kw["cache_in"] = os.path.join(self.tmp, f"c{f}.pkl")
+        if fc:
+            if fc not in self.files:
+                return          # the cache file does not exist yet: not part of this history
+            kw["from_cache"] = self.files[fc][0]
 
         def mk():
-            self.execs[x] = (self.inst[i].executor(**kw), dict(self.sel_kwargs(r, xx, t, dep)), f)
+            self.execs[x] = (self.inst[i].executor(**kw), dict(self.sel_kwargs(r, xx, t, dep)), f, fc)
         self.execs.pop(x, None)
-        self.observe("exnew", i, mk, extra={"x": x, "r": r, "xx": xx, "t": t, "dep": dep, "f": f})
+        self.observe("exnew", i, mk, extra={"x": x, "r": r, "xx": xx, "t": t, "dep": dep, "f": f, "fc": fc})
 
     def op_exrun(self, x, args, f=0):
         if x not in self.execs:
             return
-        exe, sel, f = self.execs[x]      # the cache file is a property of the executor
+        exe, sel, f, fc = self.execs[x]      # the cache files are properties of the executor
         i = [k for k, d in self.inst.items() if d is exe.dag][0]
+        if fc:
+            args = self.files[fc][1]         # a restart is run with the arguments of the caching run
         a = self.trim(args)
         ev, ret = self.observe("cacherun" if f else "exrun", i, lambda: self.run(exe, *a), args, extra={"x": x, "f": f})
         if ev["out"] == 0:
             try:
-                ev["fresh"] = same_as_fresh(ret, self.fresh_value(args, sel))
+                if fc:
+                    full = self.fresh_value(args)
+                    sel_nodes = self.fresh_nonnull(args, sel)
+                    ev["fresh"] = isinstance(ret, tuple) and all(
+                        (a_ is None and k not in sel_nodes) or strip(a_) == strip(b_) for k, (a_, b_) in enumerate(zip(ret, full), 1))
+                else:
+                    ev["fresh"] = same_as_fresh(ret, self.fresh_value(args, sel))
             except BaseException:  # noqa: BLE001
                 ev["fresh"] = False
             if f:
@@ -327,6 +341,46 @@ class History:
             except BaseException:  # noqa: BLE001
                 ev["fresh"] = False
 
+    def op_gsetup(self, i, j):
+        """setup() of two instances at the same time: gathered in one loop (async) or from two threads (sync)."""
+        import asyncio
+        import threading
+
+        if j not in self.inst or i == j:
+            return
+        box = {}
+
+        def go():
+            def runner():
+                try:
+                    if self.is_async:
+                        async def both():
+                            await asyncio.gather(self.inst[i].setup(), self.inst[j].setup())
+                        asyncio.run(both())
+                    else:
+                        ts = [threading.Thread(target=self.inst[k].setup) for k in (i, j)]
+                        for t in ts:
+                            t.start()
+                        for t in ts:
+                            t.join(6)
+                        if any(t.is_alive() for t in ts):
+                            box["hang"] = True
+                except BaseException as e:  # noqa: BLE001
+                    box["exc"] = e
+            th = threading.Thread(target=runner, daemon=True)
+            th.start()
+            th.join(6)
+            if th.is_alive() or box.get("hang"):
+                raise TimeoutError("the two setup calls did not finish")
+            if "exc" in box:
+                raise box["exc"]
+        ev, _ = self.observe("gsetup", i, go, extra={"j": j})
+        if getattr(self, "last_error", "").startswith("TimeoutError") and ev["out"] == 5:
+            ev["out"] = 6
+            self.poisoned = True        # a thread of this process is stuck for good
+        res2 = self.inst[j].results
+        ev["nonces2"] = [nonce_of(res2.get(f"f{k}")) for k in range(1, self.n + 1)]
+
     def op_copy(self, i, j):
         def go():
             self.inst[j] = deepcopy(self.inst[i])
@@ -344,7 +398,9 @@ class History:
         self.observe("config", i, go)
 
     def apply(self, op):
-        if op[0] in ("call", "setup", "exnew", "copy", "compose", "config", "restart") and op[1] not in self.inst:
+        if getattr(self, "poisoned", False):
+            return
+        if op[0] in ("call", "setup", "exnew", "copy", "compose", "config", "restart", "gsetup") and op[1] not in self.inst:
             return  # the instance does not exist (yet): the operation is not part of this history
         getattr(self, "op_" + op[0])(*op[1:])
 
@@ -372,6 +428,8 @@ def alphabet(D, rng):
         A += [("setup", 2)]
     ins, outs = D["compose"]
     A += [("compose", 1, ins, outs, [1] * len(ins)), ("config", 1, {reg[0]: 5, reg[-1]: -2})]
+    if setup:
+        A += [("gsetup", 1, 2)]
     # caching
     A += [("exnew", 1, 3, -1, -1, -1, mask([leaf]), 1), ("exrun", 3, full, 1), ("exrun", 3, other, 1),
           ("exnew", 1, 4, -1, -1, -1, -1, 2), ("exrun", 4, other, 2),
@@ -456,11 +514,32 @@ def scenarios(D, rng):
                         out.append(w1 + [r1] + w2 + [r2])
                         if rng.random() < 0.3:
                             out.append(w1 + [rng.choice(extra), r1] + w2 + [rng.choice(extra), r2])
+    # two instances set up at the same time (after / before other operations)
+    if any(op[0] == "gsetup" for op in A):
+        g = [op for op in A if op[0] == "gsetup"][0]
+        cp = [op for op in A if op[0] == "copy"][0]
+        for pre_ in [[], [op for op in A if op[0] == "setup"][1:2], [A[0]]]:
+            out.append(pre_ + [cp, g, A[0], ("call", 2, A[0][2])])
+            out.append([cp] + pre_ + [g, g])
+    # an executor created with from_cache, something else happening on the DAG, then the executor runs
+    between = [op for op in A if op[0] in ("setup", "call") and op[1] == 1]
+    leafmask = [op for op in A if op[0] == "restart"]
+    for f, writers in news.items():
+        for w in writers:
+            for r_ in runs[w[2]][:2]:
+                if FAIL in r_[2]:
+                    continue
+                for rs in restarts.get(f, []):
+                    sel = list(rs[3:7]) + [-1] * (4 - len(rs[3:7]))
+                    new = ("exnew", 1, 2, sel[0], sel[1], sel[2], sel[3], 0, f)
+                    for b in between:
+                        out.append([w, r_, new, b, ("exrun", 2, r_[2])])
+                        out.append([w, r_, new, ("exrun", 2, r_[2]), b])
     return out
 
 
-def run_history(D, ops, is_async=False):
-    h = History(D, is_async)
+def run_history(D, ops, is_async=False, sres="thread"):
+    h = History(dict(D, sres=sres), is_async)
     try:
         for op in ops:
             try:
@@ -476,9 +555,11 @@ def run_history(D, ops, is_async=False):
 def _work(args):
     jobs = args
     out = []
-    for (d, ops, is_async) in jobs:
-        ev = run_history(TEMPLATES[d], ops, is_async)
-        out.append({"d": d + 1, "ops": ops, "async": is_async, "ev": ev})
+    for job in jobs:
+        d, ops, is_async = job[:3]
+        sres = job[3] if len(job) > 3 else "thread"
+        ev = run_history(TEMPLATES[d], ops, is_async, sres)
+        out.append({"d": d + 1, "ops": ops, "async": is_async, "sres": sres, "ev": ev})
     return out
 
 
